@@ -281,7 +281,8 @@ func (in *Interp) convert(x Value, from, to types.Type) Value {
 	case isString(to) && fInt: // string(rune)
 		t := x.(*smt.Term)
 		if !t.IsConst() {
-			abortf("string(symbolic rune) not supported")
+			_, signed, _ := intInfo(from)
+			return in.normStr(in.encodeRune(in.St.Resize(t, 32, signed)))
 		}
 		return Str{S: string(rune(smt.Signed(t.Val, t.Sort.W).Int64()))}
 	case isString(to):
@@ -296,11 +297,27 @@ func (in *Interp) convert(x Value, from, to types.Type) Value {
 			return in.normStr(b)
 		}
 		var rs []rune
+		symb := false
 		for i := 0; i < sl.Len; i++ {
 			t := sl.Arr.Cells[sl.Off+i].(*smt.Term)
 			if !t.IsConst() {
-				abortf("string([]rune) with symbolic rune not supported")
+				symb = true
 			}
+			rs = append(rs, rune(0))
+		}
+		if symb {
+			var out []*smt.Term
+			for i := 0; i < sl.Len; i++ {
+				out = append(out, in.encodeRune(sl.Arr.Cells[sl.Off+i].(*smt.Term))...)
+			}
+			if len(out) == 0 {
+				return Str{}
+			}
+			return in.normStr(out)
+		}
+		rs = rs[:0]
+		for i := 0; i < sl.Len; i++ {
+			t := sl.Arr.Cells[sl.Off+i].(*smt.Term)
 			rs = append(rs, rune(smt.Signed(t.Val, 32).Int64()))
 		}
 		return Str{S: string(rs)}
@@ -344,6 +361,44 @@ func (in *Interp) convert(x Value, from, to types.Type) Value {
 	}
 	abortf("convert %v -> %v", from, to)
 	return nil
+}
+
+// encodeRune: UTF-8 encoding of a (possibly symbolic) rune (BV32, signed) with Go's
+// string(rune) semantics: invalid runes and surrogates become U+FFFD. Forks on the
+// encoded length.
+func (in *Interp) encodeRune(r *smt.Term) []*smt.Term {
+	st := in.St
+	if r.IsConst() {
+		bs := []byte(string(rune(smt.Signed(r.Val, 32).Int64())))
+		out := make([]*smt.Term, len(bs))
+		for i, b := range bs {
+			out[i] = st.BVConstI(int64(b), 8)
+		}
+		return out
+	}
+	c32 := func(v int64) *smt.Term { return st.BVConstI(v, 32) }
+	ult := func(a *smt.Term, v int64) *smt.Term { return st.Bin(smt.OpBvUlt, a, c32(v)) }
+	b8 := func(x *smt.Term) *smt.Term { return st.Resize(x, 8, false) }
+	shr := func(x *smt.Term, n int64) *smt.Term { return st.Bin(smt.OpBvLshr, x, c32(n)) }
+	and := func(x *smt.Term, m int64) *smt.Term { return st.Bin(smt.OpBvAnd, x, c32(m)) }
+	or := func(x *smt.Term, m int64) *smt.Term { return st.Bin(smt.OpBvOr, x, c32(m)) }
+	fffd := []*smt.Term{st.BVConstI(0xEF, 8), st.BVConstI(0xBF, 8), st.BVConstI(0xBD, 8)}
+	if in.Ctx.Branch(ult(r, 0x80)) {
+		return []*smt.Term{b8(r)}
+	}
+	if in.Ctx.Branch(ult(r, 0x800)) {
+		return []*smt.Term{b8(or(shr(r, 6), 0xC0)), b8(or(and(r, 0x3F), 0x80))}
+	}
+	if in.Ctx.Branch(ult(r, 0x10000)) {
+		if in.Ctx.Branch(st.And(st.Not(ult(r, 0xD800)), ult(r, 0xE000))) {
+			return fffd
+		}
+		return []*smt.Term{b8(or(shr(r, 12), 0xE0)), b8(or(and(shr(r, 6), 0x3F), 0x80)), b8(or(and(r, 0x3F), 0x80))}
+	}
+	if in.Ctx.Branch(ult(r, 0x110000)) {
+		return []*smt.Term{b8(or(shr(r, 18), 0xF0)), b8(or(and(shr(r, 12), 0x3F), 0x80)), b8(or(and(shr(r, 6), 0x3F), 0x80)), b8(or(and(r, 0x3F), 0x80))}
+	}
+	return fffd
 }
 
 // decodeRune implements Go's UTF-8 decoding of s[pos:] (as in `for range` and
